@@ -434,10 +434,22 @@ class RG:
             ("add", 10), ("sub", 6), ("mul", 12), ("div", 6), ("pow", 7), ("neg", 3), ("abs", 3 if kinks else 0),
             ("cplx", 6 if self.cplx else 2), ("fn", 12), ("atan2", 2), ("minmax", 3 if kinks else 0), ("sign", 2 if kinks else 0),
             ("conditional", 5 if kinks else 0), ("bessel", 3), ("variable", 2), ("restrict", 2), ("reduce", 10), ("contract", 8),
-            ("idx", 6), ("deriv", 9 if self.deriv and dlev < 2 else 0), ("leaf", 3),
+            ("idx", 6), ("deriv", 9 if self.deriv and dlev < 2 else 0), ("leaf", 3), ("ctlist", 3),
         ]
         op = rng.choices([t[0] for t in table], [t[1] for t in table])[0]
         S = lambda dd=1: self.scalar(depth - dd, dlev, smooth)  # noqa: E731
+        if op == "ctlist":
+            # a matrix whose columns (or rows) are listed: the list items carry a free index j, the list is indexed by k and
+            # both are bound by as_tensor in either order; one fixed entry is taken (UFL looks through the list here)
+            j, k = rng.sample(NAMES, 2)
+            n, m = rng.choice(self.dims), rng.choice([2, 3])
+            items = [m_getitem(self.tensor((n,), min(depth - 1, 1), dlev, smooth), (("idx", j),)) for _ in range(m)]
+            lst = m_stack(items, rng.choice(["tensor", "vector"]))
+            body = m_getitem(lst, (("idx", k),))
+            names = (j, k) if rng.random() < 0.6 else (k, j)
+            ct = m_ct(body, names)
+            M = N("as_tensor_idx", ct.kids, (tuple(names), "tensor"), ct.shape, ct.fi, real=ct.real)
+            return m_getitem(M, tuple(("int", rng.randrange(q)) for q in M.shape))
         if op == "leaf":
             return self.scalar_leaf(dlev)
         if op in ("add", "sub"):
